@@ -132,7 +132,7 @@ func init() {
 			}
 		}})
 
-	register(&Obligation{ID: "C14.c", Props: []string{"C14"}, Template: "must-precede.err-checked+mirror",
+	register(&Obligation{ID: "C14.c", Props: []string{"C14", "C13"}, Template: "must-precede.err-checked+mirror",
 		Desc: "CreateSavepointArtifact copies every listed file plus the checkpoints file of every operator checkpoint and then the job snapshot, returning every error; RestoreCheckpointFromSavepointArtifact derives the same artifact path and copies back to the original URI",
 		Run: func(r *Run) {
 			cr := r.P.Func("storage/snapshots", "CreateSavepointArtifact")
@@ -427,6 +427,28 @@ func (r *Run) checkCopyDirection(f *prog.FuncInfo, copyFn *types.Func, toArtifac
 			_, isJoin := isCallToNamed(info, def, "path/filepath", "Join")
 			if !isJoin {
 				r.Fail(f.Name()+":artifact-path", call.Pos(), nil, "the artifact-side path of the copy is not built with filepath.Join(<savepoint dir>, \"dkv\", <operator>, <file>)")
+			} else {
+				// the operator prefix and the base name in the artifact path are BOTH the
+				// results of parseDKVURI applied to this very file
+				jc := ast.Unparen(def).(*ast.CallExpr)
+				parse := r.P.FuncObj("storage/snapshots", "parseDKVURI")
+				var pfx, base types.Object
+				ast.Inspect(rs.Body, func(k ast.Node) bool {
+					if inner, ok := k.(*ast.RangeStmt); ok && inner != rs {
+						return false
+					}
+					if as, ok := k.(*ast.AssignStmt); ok && len(as.Lhs) == 3 && len(as.Rhs) == 1 {
+						if pc, ok := ast.Unparen(as.Rhs[0]).(*ast.CallExpr); ok && r.P.CalleeFunc(info, pc) == parse && len(pc.Args) == 1 && prog.IdentObj(info, pc.Args[0]) == fileVar {
+							pfx, base = prog.IdentObj(info, as.Lhs[0]), prog.IdentObj(info, as.Lhs[1])
+						}
+					}
+					return true
+				})
+				n := len(jc.Args)
+				if n < 2 || pfx == nil || base == nil || pfx.Name() == "_" || base.Name() == "_" ||
+					prog.IdentObj(info, jc.Args[n-2]) != pfx || prog.IdentObj(info, jc.Args[n-1]) != base {
+					r.Fail(f.Name()+":artifact-path-operands", call.Pos(), nil, "the artifact path of a copied file must end in (operator prefix, base name) obtained from parseDKVURI of THAT file; a prefix taken from elsewhere (e.g. the checkpoints file's operator) misplaces files that a restored operator inherited from another operator's directory")
+				}
 			}
 			if toArtifact && !srcIsFile {
 				r.Fail(f.Name()+":copy-direction", call.Pos(), nil, "CreateSavepointArtifact must copy FROM the checkpoint's file TO the savepoint directory")
